@@ -204,9 +204,14 @@ def stepRest (st : St) (line : String) : St × String :=
     | .locks kind n xh cap ls =>
       match parseNat? t, parseApi api, parseKeys ks with
       | some t, some (write, multi), some keys =>
-        if !(op == "acq" || op == "rel") || t > 3 || !isDecimal (toString t) || !keys.all (lockKeyOk kind) ||
+        if !(op == "acq" || op == "rel" || op == "acqx" || op == "acqd") || ((op == "acqx" || op == "acqd") && !kind.startsWith "semap") || t > 3 || !isDecimal (toString t) || !keys.all (lockKeyOk kind) ||
             (!multi && keys.length != 1) || (multi && !(kind == "tklock-i64" || kind == "tklock-str")) then (st, "bad-op")
         else if keys.any (fun k => match route n xh k with | .idx i => decide (i ≥ n) | .panic => true) then (st, "panic")
+        else if op == "acqx" || op == "acqd" then
+          -- the context is already cancelled (`acqx`) / its deadline has passed (`acqd`)
+          match ls.acquireDone cap t keys write with
+          | some (ls', granted) => (.locks kind n xh cap ls', if granted then "ret" else "err")
+          | none => (st, "bad-op")
         else if op == "acq" then
           match ls.acquire cap t keys write with
           | some (ls', granted) => (.locks kind n xh cap ls', if granted then "ret" else "parked")
